@@ -44,7 +44,7 @@ type Call struct {
 
 // Fault applies to the n-th produce request the cluster receives (0-based).
 type Fault struct {
-	Kind    string `json:"kind"` // ok temp perm drop-before lost-ack cut stall slow leader-move
+	Kind    string `json:"kind"` // ok temp perm drop-before lost-ack cut stall slow leader-move write-stall
 	Code    int16  `json:"code,omitempty"`
 	CutAt   int    `json:"cut_at,omitempty"`
 	DelayMs int    `json:"delay_ms,omitempty"`
@@ -81,6 +81,9 @@ type Case struct {
 	// SettleMs: after the callers are done, wait (without any further input)
 	// until every accepted message was seen in a produce request, at most this long.
 	SettleMs int `json:"settle_ms,omitempty"`
+	// DefaultBatchBytes: leave Writer.BatchBytes unset (the documented default of 1048576 applies; BatchBytes above holds it
+	// for the oracle).
+	DefaultBatchBytes bool `json:"default_batch_bytes,omitempty"`
 	// LoggerDelayUs > 0: the Writer gets a Logger that takes this long per line (user callbacks are part of the schedule).
 	LoggerDelayUs int `json:"logger_delay_us,omitempty"`
 	// StrictLateMs (oracle hint used by C08's steady-stream stratum): >0 = the broker is healthy and batches tiny, a
@@ -320,6 +323,11 @@ func Run(c Case) *Result {
 			return &fakecluster.Action{DropResponse: true, Tag: f.Kind}
 		case "cut":
 			return &fakecluster.Action{CutResponse: true, CutResponseAt: f.CutAt, Tag: f.Kind}
+		case "write-stall":
+			// this request is answered; the client's NEXT write on this connection gets stuck after a few bytes for DelayMs
+			// (the broker stops reading), then goes through
+			r.Conn.StallClientWrites(8, time.Duration(f.DelayMs)*time.Millisecond)
+			return &fakecluster.Action{Tag: f.Kind}
 		case "stall":
 			if released.Load() {
 				return nil
@@ -371,6 +379,9 @@ func Run(c Case) *Result {
 	}
 	if slowLogger != nil {
 		w.Logger = slowLogger
+	}
+	if c.DefaultBatchBytes {
+		w.BatchBytes = 0
 	}
 	var cmu sync.Mutex
 	w.Completion = func(msgs []kafka.Message, err error) {
